@@ -101,7 +101,9 @@ def run(ctx):
         if kind == 'multinest' and ns == 1:
             ns = 2        # MultiNest's text output always has several rows (numpy.loadtxt returns 1-D for one)
         wkind, w = gen_weights(rng, ns)
-        derived = rng.random() < 0.5
+        # derived parameters: none, one, or several at once (the traces are gathered together)
+        dnames = rng.sample(['logg', 'avg_T', 'metallicity', 'mu'], rng.choice([0, 0, 1, 1, 2, 3, 4]) if i >= 4 else [2, 3, 4, 2][i])
+        derived = bool(dnames)
         rp = dict(kind=kind, spec=spec, fit=[f[0] for f in fit], ns=ns, weights=w)
         if kind == 'nestle':
             opt = NestleOptimizer(observed=obs, model=model, num_live_points=5)
@@ -114,8 +116,9 @@ def run(ctx):
         for name, k, b in fit:
             opt.enable_fit(name)
             opt.set_prior(name, (LogUniform if k == 'log' else Uniform)(bounds=list(b)))
-        if derived:
-            opt.enable_derived('mu')
+        for dn in dnames:
+            opt.enable_derived(dn)
+        ctx.count('derived parameters: %d' % len(dnames))
         opt.compile_params()
         order = [n.replace('log_', '') for n in opt.fit_names]
         fd = {f[0]: f for f in fit}
@@ -198,18 +201,22 @@ def run(ctx):
             ctx.violation('solution-profiles:' + kind, 'stored profiles are not those of the median solution', replay=rp)
         if derived:
             from taurex.util.util import quantile_corner
-            d = s0.get('derived_params', {}).get('mu_derived')
-            mus = []
+            traces = {dn: [] for dn in dnames}
             for row in samples:
                 eval_at(list(row))
-                mus.append(float(model2.chemistry.mu))
-            if d is None or len(np.asarray(d['trace'])) != ns or not np.allclose(d['trace'], mus, rtol=1e-10):
-                ctx.violation('derived-trace:' + kind, 'derived trace is not one entry per sample in sample order',
-                              replay=rp)
-            elif ns >= 1:
-                q = quantile_corner(np.array(mus), [0.16, 0.5, 0.84], weights=w)
-                if not np.allclose([d['value'], d['sigma_m'], d['sigma_p']], [q[1], q[1] - q[0], q[2] - q[1]], rtol=1e-9, atol=1e-12):
-                    ctx.violation('derived-summary:' + kind, 'derived summaries do not follow the quantile rule', replay=rp)
+                for dn in dnames:
+                    traces[dn].append(float(model2.derivedParameters[dn][2]()))
+            for dn in dnames:
+                d = s0.get('derived_params', {}).get(dn + '_derived')
+                mus = traces[dn]
+                if d is None or len(np.asarray(d['trace'])) != ns or not np.allclose(d['trace'], mus, rtol=1e-10):
+                    ctx.violation('derived-trace:' + kind, 'derived trace of %s (%d derived parameters enabled) is not one '
+                                  'entry per sample in sample order' % (dn, len(dnames)), replay=dict(rp, derived=dnames))
+                elif ns >= 1:
+                    q = quantile_corner(np.array(mus), [0.16, 0.5, 0.84], weights=w)
+                    if not np.allclose([d['value'], d['sigma_m'], d['sigma_p']], [q[1], q[1] - q[0], q[2] - q[1]], rtol=1e-9, atol=1e-12):
+                        ctx.violation('derived-summary:' + kind, 'derived summaries of %s do not follow the quantile rule' % dn,
+                                      replay=dict(rp, derived=dnames))
         exprs.append('run_summaries %s %s %s' % (C.clist([C.qlist(r) for r in samples]), C.qlist(w), C.natlit(ndim)))
         metas.append(dict(rows=impl_rows, rp=rp, kind=kind, ns=ns,
                           nontriv=(ns >= 5 and len(set(w.tolist())) >= 2), names=names,
